@@ -467,6 +467,45 @@ func c16Selectors(c *Ctx, schema *routeSchema) {
 				r.Outcome("late-failure->rejected")
 			}
 		}
+		// the same below / on an existing LITERAL LEAF (S1 owns get /leaf/a): a rejected set whose valid
+		// first binding adds a verb to that leaf, or a child below it, leaves nothing behind
+		if nonEmpty {
+			leafOwner := dyn.Rule{Kind: "get", Path: "/leaf/a"}
+			for bi, bad := range []dyn.Rule{
+				{Kind: "delete", Path: "/leaf/a", Add: []dyn.Rule{{Kind: "get", Path: "/nest/{zz}"}}},
+				{Kind: "get", Path: "/leaf/a/b", Add: []dyn.Rule{{Kind: "get", Path: "/{s"}}},
+				{Kind: "get", Path: "/leaf/a:vb", Add: []dyn.Rule{{Kind: "post", Path: "/leaf/q", Body: "zz"}}},
+				{Kind: "get", Path: "/leaf/{s}", Add: []dyn.Rule{{Kind: "get", Path: "/leaf/a"}}}, // collides with S1's leaf itself
+			} {
+				res, m, impl := c16Register(schema, bad, &leafOwner, true)
+				r.Eval(1)
+				cs := c16Case{Kind: "nested", Rule: bad, Other: &leafOwner, NonEmpty: true}
+				key := fmt.Sprintf("late-failure-on-literal-leaf #%d", bi)
+				switch {
+				case res.panicked:
+					r.Violation(report.Violation{Oracle: "register-panic", Key: "register-panic " + key, Case: cs, Note: res.err})
+				case res.accepted:
+					r.Violation(report.Violation{Oracle: "invalid-template-accepted", Key: "invalid-rule-set-accepted " + key, Case: cs})
+				default:
+					if res.before != res.after {
+						r.Violation(report.Violation{Oracle: "rejection-not-atomic", Key: "rejection-not-atomic " + key, Case: cs, Note: "the published routing state changed although the registration was rejected"})
+					}
+					for _, pr := range [][2]string{{"DELETE", "/leaf/a"}, {"GET", "/leaf/a/b"}, {"GET", "/leaf/a:vb"}, {"GET", "/leaf/x"}} {
+						impl.reset()
+						sr := serveSimple(m, pr[0], pr[1], "")
+						r.Eval(1)
+						if sr.Panicked || (impl.n != 0 && impl.method == schema.methods[1]) {
+							r.Violation(report.Violation{Oracle: "rejection-damaged-routes", Key: "rejection-leaked-routes " + key + " " + pr[0] + " " + pr[1], Case: cs, Note: fmt.Sprintf("%s %s reached the method whose registration was rejected (status %d) %s", pr[0], pr[1], sr.Code, sr.Panic)})
+						}
+					}
+					impl.reset()
+					if sr := serveSimple(m, "GET", "/leaf/a", ""); sr.Panicked || impl.n != 1 || impl.method != schema.methods[0] {
+						r.Violation(report.Violation{Oracle: "rejection-damaged-routes", Key: "rejection-damaged-routes " + key, Case: cs, Note: fmt.Sprintf("GET /leaf/a (S1's route) -> status=%d dispatched=%d method=%s", sr.Code, impl.n, impl.method)})
+					}
+					r.Outcome("late-failure-on-leaf->rejected")
+				}
+			}
+		}
 		// a later binding that lands on a node and verb the SAME method already owns (variable nodes
 		// are keyed by their pattern, not by the field): its field path, body and response_body
 		// are still checked
@@ -711,6 +750,7 @@ func c16SecondOwnerRevision(c *Ctx) {
 		{"nested additional bindings", &dyn.Rule{Kind: "get", Path: "/rev/two/{s}", Add: []dyn.Rule{{Kind: "get", Path: "/rev/three/{s}", Add: []dyn.Rule{{Kind: "get", Path: "/rev/four/{s}"}}}}}, "reject", []string{"/rev/one/x"}},
 		{"binding of another method", &dyn.Rule{Kind: "get", Path: "/rev/taken/{s}"}, "reject", []string{"/rev/one/x"}},
 		{"valid binding then invalid additional binding", &dyn.Rule{Kind: "get", Path: "/rev/two/{s}", Add: []dyn.Rule{{Kind: "get", Path: "/rev/three/{zz}"}}}, "reject", []string{"/rev/one/x"}},
+		{"the first revision's node bound to another field, then an invalid additional binding", &dyn.Rule{Kind: "get", Path: "/rev/one/{t}", Add: []dyn.Rule{{Kind: "get", Path: "/rev/three/{zz}"}}}, "reject", []string{"/rev/one/x"}},
 	}
 	ctx := context.Background()
 	for i, rv := range revs {
@@ -720,9 +760,14 @@ func c16SecondOwnerRevision(c *Ctx) {
 			panic(err)
 		}
 		var nFirst, nSecond, nOther int
+		lastReq := ""
 		mkBackend := func(name string, fd protoreflect.FileDescriptor, svc string, n *int) *env.Backend {
 			b := env.NewBackend(name, []protoreflect.FileDescriptor{fd}, []string{svc})
-			b.Unary = func(ctx context.Context, method string, req, reply proto.Message) error { *n++; return nil }
+			b.Unary = func(ctx context.Context, method string, req, reply proto.Message) error {
+				*n++
+				lastReq = fmt.Sprint(req)
+				return nil
+			}
 			return b
 		}
 		bo, b1, b2 := mkBackend("other", other, "vr.Other", &nOther), mkBackend("first", v1, "vr.R", &nFirst), mkBackend("second", v2, "vr.R", &nSecond)
@@ -771,6 +816,10 @@ func c16SecondOwnerRevision(c *Ctx) {
 				r.Eval(1)
 				if sr.Panicked || nFirst+nSecond != 1 {
 					r.Violation(report.Violation{Oracle: "accepted-template-does-not-route", Key: "second-owner-route-dead " + key + " " + path, Case: cs, Note: fmt.Sprintf("GET %s -> status=%d dispatched=%d %s", path, sr.Code, nFirst+nSecond, sr.Panic)})
+					break
+				}
+				if rerr != nil && path == "/rev/one/x" && !strings.Contains(lastReq, `s:"x"`) {
+					r.Violation(report.Violation{Oracle: "rejection-damaged-routes", Key: "rejected-revision-changed-binding " + key, Case: cs, Note: fmt.Sprintf("after the rejected registration GET /rev/one/x delivers {%s}; the live binding /rev/one/{s} binds s", lastReq)})
 					break
 				}
 				if rerr != nil && nSecond != 0 {
